@@ -227,7 +227,11 @@ def run(ctx):
         else:
             ctx.notes.append("finding %s no longer reproduces" % kf["id"])
     # runtime part: same UUID in every process - the same generated values in a second harness process
-    rows2 = vc.hrows(["-mode", "uuid", "-seed", str(ctx.seed), "-n", "4000" if thorough else "600"])
+    os.environ["TZ"] = "Asia/Kolkata"      # and in another local time zone: the UUID must not depend on it
+    try:
+        rows2 = vc.hrows(["-mode", "uuid", "-seed", str(ctx.seed), "-n", "4000" if thorough else "600"])
+    finally:
+        os.environ.pop("TZ", None)
     cross, crossbad = 0, 0
     for a, b in zip(rows, rows2):
         if a["kind"] != b["kind"] or a.get("v") != b.get("v") or a.get("a") != b.get("a"):
